@@ -147,6 +147,64 @@ func c10(x *Ctx) {
 		if n == 0 {
 			c.Violate("C10.threshold-monotone", name+"/upperBound", x.PosOf(f.Pos()), "the threshold field is never stored")
 		}
+		// ---- rate and threshold change together ---------------------------------------------------
+		// GetSampleRate reads both under one (read) lock; a writer that releases the lock between
+		// storing the rate and storing the threshold lets a reader pair the new rate with the old threshold.
+		storesOf := func(fn *ssa.Function, pred func(eng.FieldRef) bool) []ssa.Instruction {
+			var out []ssa.Instruction
+			eng.Instrs(fn, func(in ssa.Instruction) {
+				if st, ok := in.(*ssa.Store); ok {
+					if fr, _, ok := eng.FieldRefOf(st.Addr); ok && pred(fr) {
+						out = append(out, in)
+					}
+				}
+			})
+			return out
+		}
+		has := func(set []ssa.Instruction, in ssa.Instruction) bool {
+			for _, t := range set {
+				if t == in {
+					return true
+				}
+			}
+			return false
+		}
+		doneFn := map[*ssa.Function]bool{}
+		for _, w := range eng.FieldWrites(x.PkgFuncs(t.rel), rateF) {
+			if doneFn[w.Fn] {
+				continue
+			}
+			doneFn[w.Fn] = true
+			rateStores, thrStores := storesOf(w.Fn, rateF), storesOf(w.Fn, thrF)
+			if len(thrStores) == 0 {
+				continue
+			}
+			c.Examined++
+			split := false
+			for _, dir := range [][2][]ssa.Instruction{{rateStores, thrStores}, {thrStores, rateStores}} {
+				for _, from := range dir[0] {
+					to := dir[1]
+					r := eng.Explore(eng.Query{Fn: w.Fn, Start: from, Classify: func(in ssa.Instruction, _ eng.Facts) eng.Event {
+						if cl, ok := in.(*ssa.Call); ok {
+							if n := eng.CalleeName(cl); n == "(*sync.RWMutex).Unlock" || n == "(*sync.Mutex).Unlock" {
+								return eng.EvSink
+							}
+						}
+						if has(to, in) {
+							return eng.EvSink
+						}
+						return eng.EvNone
+					}})
+					for _, h := range r.Hits {
+						if has(to, h.Instr) && h.Before > 0 {
+							split = true
+						}
+					}
+				}
+			}
+			c.Decide(!split, "C10.rate-threshold-atomic", name+"/"+BaseName(w.Fn), x.PosOf(w.Fn.Pos()), "rate and threshold are stored in one critical section",
+				"the lock is released between storing the sample rate and storing the threshold derived from it: a concurrent GetSampleRate can pair the new rate with the old threshold, so the reported rate and the kept set disagree and nodes reloading at different moments split traces")
+		}
 		// ---- rate <= 1 keeps everything -----------------------------------------------------
 		one := int64(1)
 		as := &eng.Assume{Bool: func(v ssa.Value) eng.Tri {
@@ -172,6 +230,7 @@ func c10(x *Ctx) {
 	c.Min("C10.threshold-shape", 2)
 	c.Min("C10.threshold-monotone", 2)
 	c.Min("C10.rate-one-keeps-all", 2)
+	c.Min("C10.rate-threshold-atomic", 2)
 }
 
 func isParamNamed(v ssa.Value, name string) bool {
